@@ -361,3 +361,56 @@ example (s1 s2 s3 : Search) :
     | 2, _ => exact .refl _
 
 end Tau.C17
+
+namespace Tau.C17
+open Tau
+
+/-! ### The per-needle counter behind all()/of() over one automaton
+
+`slow_aho` decides `all(k)` / `of(k, n)` over a list the parser batched into one automaton, and over
+what shake merges into one. It counts MEMBERS (needles with a satisfying occurrence), so it does not
+depend on where in the list a member stands, it is additive over any split of the list, and it never
+exceeds the number of members — whatever the size of the list (the implementation switches from a
+64-bit bitmap to a set at 64 members; four independent seeded changes of round 14 broke exactly
+these three facts in that function). -/
+
+/-- The count does not depend on the order of the members. -/
+theorem slowAho_perm (ci : Bool) (a b : List MatchType) (h : Str) (hp : a.Perm b) :
+    slowAho ci a h = slowAho ci b h := by
+  unfold slowAho
+  exact hp.countP_eq _
+
+/-- Additive over a split of the list (no member is lost or counted twice at a block boundary). -/
+theorem slowAho_append (ci : Bool) (a b : List MatchType) (h : Str) :
+    slowAho ci (a ++ b) h = slowAho ci a h + slowAho ci b h := by
+  unfold slowAho
+  exact List.countP_append
+
+/-- Never more than the number of members; equal exactly when every member matches. -/
+theorem slowAho_le (ci : Bool) (a : List MatchType) (h : Str) : slowAho ci a h ≤ a.length := by
+  unfold slowAho
+  exact List.countP_le_length
+
+theorem slowAho_eq_length_iff (ci : Bool) (a : List MatchType) (h : Str) :
+    slowAho ci a h = a.length ↔ ∀ m ∈ a, relMT ci m h = true := by
+  unfold slowAho
+  exact List.countP_eq_length
+
+/-- `all(k)` / `of(k, n)` over one automaton: the three-valued result is the same for every order of
+    the members, on every document. -/
+theorem all_automaton_perm (E : RegexEngine) (K : IdentK) (d : Doc) (a b : List MatchType) (ci : Bool)
+    (f : Str) (c : Bool) (hp : a.Perm b) :
+    solveG E K d (.match .all (.search (.ac a ci) f c)) = solveG E K d (.match .all (.search (.ac b ci) f c)) := by
+  simp only [solveG, allAc]
+  have hl : a.length = b.length := hp.length_eq
+  have hc : ∀ x, slowAho ci a x = slowAho ci b x := fun x => slowAho_perm ci a b x hp
+  simp only [hc, hl]
+
+theorem of_automaton_perm (E : RegexEngine) (K : IdentK) (d : Doc) (n : Nat) (a b : List MatchType) (ci : Bool)
+    (f : Str) (c : Bool) (hp : a.Perm b) (hn : n ≠ 0) :
+    solveG E K d (.match (.of n) (.search (.ac a ci) f c)) = solveG E K d (.match (.of n) (.search (.ac b ci) f c)) := by
+  simp only [solveG, ofAc, hn, if_false]
+  have hc : ∀ x, slowAho ci a x = slowAho ci b x := fun x => slowAho_perm ci a b x hp
+  simp only [hc]
+
+end Tau.C17
